@@ -89,9 +89,10 @@ func main() {
 	if !run.Thorough() {
 		add(two, core, false, vsched.Config{P: 2, Preempt: fine, MaxSteps: 5000})
 		add(two, wide, false, vsched.Config{P: 1, Preempt: fine, MaxSteps: 5000})
-		add(two, progs("L", "T", "C"), true, vsched.Config{P: 1, F: 1, Preempt: fine, MaxSteps: 5000})
+		add(two, progs("L", "T", "C", "LT", "LL", "Lh"), true, vsched.Config{P: 1, F: 1, Preempt: fine, MaxSteps: 5000})
 		add([]string{"d"}, progs("L", "T"), false, vsched.Config{P: 1, Preempt: fine, MaxSteps: 5000})
-		bounds["tiers"] = "2 threads {L,T,C,X}^2 P<=2; {L,T,C,LL,Lh,TT}^2 P<=1; faults F<=1 with P<=1 on {L,T,C}^2; 3 threads {L,T}^3 P<=1"
+		add([]string{"e"}, progs("L", "T"), true, vsched.Config{P: 0, F: 1, Preempt: fine, MaxSteps: 5000})
+		bounds["tiers"] = "2 threads {L,T,C,X}^2 P<=2; {L,T,C,LL,Lh,TT}^2 P<=1; faults F<=1 with P<=1 on {L,T,C,LT,LL,Lh}^2 and with P=0 on 3 providers {L,T}^3; 3 threads {L,T}^3 P<=1"
 		budget = 4 * time.Minute
 	} else {
 		add(two, core, false, vsched.Config{P: 3, Preempt: fine, MaxSteps: 5000})
